@@ -88,7 +88,9 @@ def run(ctx):
     rc, out, wall = vlib.sh([b, "record", tp, "seed=%d" % ctx.seed, "texts=%d" % (60 if q else 400),
                              "damages=%d" % (2 if q else 5), "full=%d" % (0 if q else 1)], timeout=1200)
     ctx.stage("record", wall, **json.loads(out.strip().splitlines()[-1]))
-    n = vlib.check_trace(ctx, "Trace_Utf8.tla", "Trace.cfg", tp, sig_of, timeout=3000, xmx="6g")
+    # every event is self-contained (carries its input), so a replay / self-test context is the event alone
+    n = vlib.check_trace(ctx, "Trace_Utf8.tla", "Trace.cfg", tp, sig_of, group_key=lambda e: True,
+                         timeout=3000, xmx="6g")
     evs = vlib.read_ndjson(tp)
     shown = 0
     for e in evs:
